@@ -57,7 +57,7 @@ class FreshMonitor:
                     (getattr(rule, 'operator', None) is not None and getattr(rule.operator, 'name', '') in refsem.MODAL)))
         if not witnessy or entry.target.get('flag'):
             return
-        k = tab.current_step
+        k = len(tab.history)      # nodes added by the k-th step carry step == k
         t = entry.target
         node = t.get('node')
         base_consts, base_worlds = set(), set()
@@ -126,7 +126,9 @@ def run(ctx):
     logic = sem_ok[(ctx.index // SALTS) % len(sem_ok)]
     sem = refsem.get(logic)
     r = rng.random()
-    if sem.quantified and (not sem.modal or r < 0.5):
+    if sem.quantified and sem.modal and r < 0.34:
+        prems, conc = proofwl.modal_fo_template(rng, identity=sem.classical)
+    elif sem.quantified and (not sem.modal or r < 0.67):
         prems, conc = proofwl.fo_template(rng, identity=sem.classical) if rng.random() < 0.6 else proofwl.gen_case(rng, logic, 'fo')
     else:
         prems, conc = proofwl.modal_template(rng) if rng.random() < 0.6 else proofwl.gen_case(rng, logic, 'modal')
